@@ -206,5 +206,25 @@ func TestC09(t *testing.T) {
 		}
 		return c09Case{Seq: seq, ViaEngine: chance(t, "engine", 3)}
 	}
-	runProp(t, "C09", checkC09, exhaustive, part[c09Case]{"long-sequences", scale(6000, 20000), gen})
+	genVeryLong := func(t *rapid.T) c09Case {
+		n := rapid.IntRange(70, 170).Draw(t, "n")
+		alpha := c09Alphabet(subsetOf(t, "shapes", c09ShapesFull, 5))
+		var rewritesOnly []string
+		for _, a := range alpha {
+			if !strings.HasPrefix(a, "@@") {
+				rewritesOnly = append(rewritesOnly, a)
+			}
+		}
+		var seq []string
+		for i := 0; i < n; i++ {
+			if len(rewritesOnly) > 0 && !chance(t, "exception", 6) {
+				seq = append(seq, pick(t, "rewrite", rewritesOnly)) // mostly rewrites: far more than 64 of them
+			} else {
+				seq = append(seq, pick(t, "sym", alpha))
+			}
+		}
+		return c09Case{Seq: seq}
+	}
+	runProp(t, "C09", checkC09, exhaustive, part[c09Case]{"long-sequences", scale(6000, 20000), gen},
+		part[c09Case]{"very-long-sequences", scale(150, 1500), genVeryLong})
 }
